@@ -1,7 +1,8 @@
 #!/venv/bin/python
 """Re-runs every stored seeded change against the current checks (primary
 property only unless --all-listed) and updates meta.json.  Not a registered check.
-usage: tools/seeded_regress.py [--jobs 8] [--tier quick] [--all-listed] [--only C11-B,C18-A | --only C11]"""
+usage: tools/seeded_regress.py [--jobs 8] [--tier quick] [--all-listed] [--only C11-B,C18-A | --only C11] [--dry]
+(--dry: do not rewrite meta.json - for runs under another VERIF_SEED that ask which catches depend on the seed)"""
 import concurrent.futures
 import glob
 import json
@@ -24,7 +25,8 @@ def one(path, tier, all_listed):
     allc = m["what_was_run"]["checks_against_patched_tree (exit 1 = caught)"]
     m["caught_by"] = sorted(k for k, v in allc.items() if v == 1)
     m["missed_by"] = sorted(k for k, v in allc.items() if v != 1)
-    json.dump(m, open(path, "w"), indent=1)
+    if "--dry" not in sys.argv:
+        json.dump(m, open(path, "w"), indent=1)
     return m["id"], res["checks"], res["demo_with_patch"], res["demo_without_patch"]
 
 
